@@ -205,7 +205,10 @@ def stepCase (v : Verdict) (i : Nat) (opText obs : String) : Verdict :=
         let dropped := docs.any (fun d => sch.any (fun f => !(d.any (fun p => p.1 == f.name))))
         let v := if model == "err" then v.addTag s!"{fam}:doc-error" else if dropped then v.addTag s!"{fam}:defaults" else v.addTag s!"{fam}:doc-ok"
         v
-  | "mut" => if obs == "ok" || obs == "err" || obs == "notutf8" || obs == "ser=err" then v.addTag "mutated-text" else v.setDiff s!"step={i} unexpected {obs}"
+  | "mut" =>
+    if obs == "ok" || obs == "err" || obs == "notutf8" || obs == "ser=err" then v.addTag "mutated-text"
+    else if obs.startsWith "panic" then v.setViol s!"step={i} a malformed document made the rule parser panic instead of reporting an error: {obs}"
+    else v.setDiff s!"step={i} unexpected {obs}"
   | "item" =>
     match itemOf op with
     | .error e => v.setDiff s!"step={i} {e}"
